@@ -33,43 +33,58 @@ def parseState : String → Option CState
 def showPayee : Payee → String
   | .na => "-" | .caller => "rew=caller" | .positionOwner => "rew=owner"
 
-def cell (n c e r s : String) : String :=
+/-- endpoints of the compiled contracts that the table does not list, with their ABI-default entry
+    (learned from the `abi` lines, which precede the cells of a world) -/
+abbrev Extra := List (String × String × Entry)
+
+def entryOf (x : Extra) (c : String) (c' : Contract) (e : String) : Option Entry :=
+  match lookup c' e with
+  | some ent => some ent
+  | none => (x.find? fun y => y.1 == c && y.2.1 == e).map (·.2.2)
+
+def cell (x : Extra) (n c e r s : String) : String :=
   match parseContract c, parseRole r, parseState s with
   | some c', some r', some s' =>
-      if allowed c' e r' s' then
-        let p := match lookup c' e with | some ent => showPayee ent.payee | none => "-"
-        s!"R {n} ok {c}.{e}.{r}.{s} | {p}"
-      else s!"R {n} err"
+      match entryOf x c c' e with
+      | some ent =>
+          if allowedBy c' ent r' s' then s!"R {n} ok {c}.{e}.{r}.{s} | {showPayee ent.payee}" else s!"R {n} err"
+      | none => s!"R {n} err"
   | _, _, _ => s!"R {n} err"
 
 /-- the stateless lines: matrix cells and ABI inventory lines -/
-def handleCell : List String → Option String
-  | ["O", n, "cell", c, e, r, s] => some (cell n c e r s)
-  | ["O", n, "cellx", c, e, r, s] => some (cell n c e r s)
+def handleCell (x : Extra) : List String → Extra × Option String
+  | ["O", n, "cell", c, e, r, s] => (x, some (cell x n c e r s))
+  | ["O", n, "cellx", c, e, r, s] => (x, some (cell x n c e r s))
   | ["O", n, "nocall", c, e, _, _] =>
       -- nothing was executed; the endpoint must at least be classified
-      match (parseContract c).bind (fun c' => lookup c' e) with
-      | some _ => some s!"R {n} ok nocall | -"
-      | none => some s!"R {n} err"
+      match (parseContract c).bind (fun c' => entryOf x c c' e) with
+      | some _ => (x, some s!"R {n} ok nocall | -")
+      | none => (x, some s!"R {n} err")
   | ["O", n, "abi", c, e, ow, ro] =>
-      -- inventory line from the freshly compiled contract: the endpoint must be classified,
-      -- `only_owner` must agree with the table's guard, a read-only endpoint must be a view
-      match (parseContract c).bind (fun c' => lookup c' e) with
-      | some ent =>
-          let okOwner := (ow == "owner=1") == (ent.guard == Guard.scOwner)
-          let okRo := ro != "ro=1" || ent.cls == Class.view
-          if okOwner && okRo then some s!"R {n} ok abi {c}.{e} | {ow} {ro}" else some s!"R {n} err"
-      | none => some s!"R {n} err"
-  | "O" :: n :: _ => some s!"R {n} err"
-  | _ => none
+      -- inventory line from the freshly compiled contract: the endpoint must be classified (by the table, or by
+      -- the ABI default for an unlisted getter / `#[only_owner]` setter), `only_owner` must agree with the
+      -- entry's guard, a read-only endpoint must be a view
+      match parseContract c with
+      | some c' =>
+          match classify c' e (ow == "owner=1") (ro == "ro=1") with
+          | some ent =>
+              let okOwner := (ow == "owner=1") == (ent.guard == Guard.scOwner)
+              let okRo := ro != "ro=1" || ent.cls == Class.view
+              let x' := if (lookup c' e).isNone then (c, e, ent) :: x else x
+              if okOwner && okRo then (x', some s!"R {n} ok abi {c}.{e} | {ow} {ro}") else (x, some s!"R {n} err")
+          | none => (x, some s!"R {n} err")
+      | none => (x, some s!"R {n} err")
+  | "O" :: n :: _ => (x, some s!"R {n} err")
+  | _ => (x, none)
 
 /-- state of a state-machine history: the access modules of ONE evolving deployment -/
 structure DSt where
   ps : PauseSt
   wl : WlSt
   hub : HubSt
+  extra : Extra := []
 
-def DSt.init (c : Contract) : DSt := ⟨⟨deployed c, .active⟩, wlDeployed, hubDeployed⟩
+def DSt.init (c : Contract) : DSt := ⟨⟨deployed c, .active⟩, wlDeployed, hubDeployed, []⟩
 
 def showBits (p : Perm) : String :=
   (if p.owner then "1" else "0") ++ (if p.admin then "1" else "0") ++ (if p.pause then "1" else "0")
@@ -134,7 +149,7 @@ def handle (d : DSt) (line : String) : DSt × Option String :=
       let c := ((kv rest "contract").bind parseContract).getD .hub
       (DSt.init c, some (" ".intercalate ("W" :: rest)))
   | "O" :: n :: "sm" :: rest => let (d', out) := sm d n rest; (d', some out)
-  | ws => (d, (handleCell ws))
+  | ws => let (x, out) := handleCell d.extra ws; ({ d with extra := x }, out)
 
 end Mx.AccessDriver
 
